@@ -16,6 +16,14 @@ try:
     env = dict(os.environ, PYTHONPATH=str(wt), PYTHONHASHSEED="0")
     r = sh(f"cd {wt} && /venv/bin/python {src/'demo.py'}", env=env); out["demo_clean"] = (r.returncode, r.stdout[-300:])
     r = sh(f"git -C {wt} apply {src/'patch.diff'}"); out["apply"] = r.returncode
+    if r.returncode != 0:
+        # the tree has moved on since the change was written (repairs in the same file): merge it in
+        sh(f"git -C {wt} reset -q --hard")
+        r = sh(f"git -C {wt} apply --3way {src/'patch.diff'}"); out["apply"] = r.returncode
+        if r.returncode != 0:
+            print(sid, "patch no longer applies to this tree (not even with --3way): nothing filed")
+            sh(f"git -C /repo worktree remove --force {wt}")
+            sys.exit(3)
     r = sh(f"cd {wt} && /venv/bin/python {src/'demo.py'}", env=env); out["demo_mutated"] = (r.returncode, r.stdout[-600:])
     prev = json.loads((src / "meta.json").read_text()).get("confirmed", {}).get("pinned_suite") if (src / "meta.json").exists() else None
     if os.environ.get("TRY_SEED_SKIP_BASELINE") and prev and prev.startswith("passed=213"):
